@@ -4,7 +4,11 @@ import (
 	"bytes"
 	"fmt"
 	"go/ast"
+	"go/constant"
+	"go/printer"
 	"go/token"
+	"go/types"
+	"sort"
 	"strings"
 )
 
@@ -169,5 +173,423 @@ func rtmpFacts(p *pkgInfo, w *bytes.Buffer) error {
 		}
 	}
 	fmt.Fprintf(w, "/-- Functions other than onPacketWriten / parseAMFObject / NewProtocol that mention `transactions`. -/\ndef txnOtherAccessors : List String := [%s]\n", quoteAll(others))
+	return nil
+}
+
+// ---------------------------------------------------------------------------
+// Packet layer (C03): command names as bytes, BetterCid()/Type() of every packet type,
+// the switch arms of DecodeMessage / parseAMFObject / onPacketWriten as tables.
+
+func init() {
+	prev := facts["rtmp"]
+	facts["rtmp"] = func(p *pkgInfo, w *bytes.Buffer) error {
+		if err := prev(p, w); err != nil {
+			return err
+		}
+		w.WriteString("\n")
+		return rtmpPacketFacts(p, w)
+	}
+}
+
+func leanBytes(s string) string {
+	parts := make([]string, len(s))
+	for i := 0; i < len(s); i++ {
+		parts[i] = fmt.Sprint(s[i])
+	}
+	return "[" + strings.Join(parts, ", ") + "]"
+}
+
+// declOfFunc finds the declaration of a method object.
+func (p *pkgInfo) declOfFunc(obj types.Object) *ast.FuncDecl {
+	for _, f := range p.files {
+		for _, d := range f.Decls {
+			if fd, ok := d.(*ast.FuncDecl); ok && p.info.Defs[fd.Name] == obj {
+				return fd
+			}
+		}
+	}
+	return nil
+}
+
+// constReturn: the body is exactly `return <constant>`.
+func (p *pkgInfo) constReturn(fd *ast.FuncDecl) (val, src string, ok bool) {
+	if fd == nil || fd.Body == nil || len(fd.Body.List) != 1 {
+		return "", "", false
+	}
+	ret, isRet := fd.Body.List[0].(*ast.ReturnStmt)
+	if !isRet || len(ret.Results) != 1 {
+		return "", "", false
+	}
+	v, _, good := p.constOf(ret.Results[0])
+	return v, selString(ret.Results[0]), good
+}
+
+// armOutcome classifies the body of one switch arm.
+func armOutcome(body []ast.Stmt) string {
+	out := ""
+	// an arm containing a nested switch: transaction lookup, then dispatch on the request name
+	for _, st := range body {
+		ast.Inspect(st, func(n ast.Node) bool {
+			if _, ok := n.(*ast.SwitchStmt); ok {
+				out = "response"
+			}
+			return out == ""
+		})
+	}
+	if out != "" {
+		return out
+	}
+	for _, st := range body {
+		ast.Inspect(st, func(n ast.Node) bool {
+			if out != "" || n == nil {
+				return false
+			}
+			switch x := n.(type) {
+			case *ast.CallExpr:
+				name := selString(x.Fun)
+				if strings.HasSuffix(name, ".parseAMFObject") {
+					out = "parseAMFObject"
+				} else if id, ok := x.Fun.(*ast.Ident); ok && strings.HasPrefix(id.Name, "New") {
+					out = id.Name
+				}
+			case *ast.AssignStmt:
+				if len(x.Lhs) == 1 && len(x.Rhs) == 1 {
+					if se, ok := x.Rhs[0].(*ast.SliceExpr); ok && se.High == nil && se.Low != nil {
+						if lit, ok := se.Low.(*ast.BasicLit); ok && lit.Value == "1" && selString(x.Lhs[0]) == selString(se.X) {
+							out = "skipOneByte"
+						}
+					}
+				}
+			case *ast.ReturnStmt:
+				if len(x.Results) > 0 {
+					if id, ok := x.Results[0].(*ast.Ident); ok && id.Name == "nil" {
+						out = "rejected"
+					}
+				}
+			}
+			return out == ""
+		})
+		if out != "" {
+			return out
+		}
+	}
+	return out
+}
+
+type swArm struct {
+	keys    []string // constant values (Lean terms)
+	outcome string
+}
+
+// switchArms reads a `switch tag { case consts: … }` with constant cases. strKeys: keys are strings, rendered as byte lists.
+func (p *pkgInfo) switchArms(sw *ast.SwitchStmt, strKeys bool) (arms []swArm, def string, err error) {
+	def = ""
+	for _, cc := range sw.Body.List {
+		c := cc.(*ast.CaseClause)
+		o := armOutcome(c.Body)
+		if o == "" {
+			return nil, "", fmt.Errorf("switch on %s: unrecognised arm body", selString(sw.Tag))
+		}
+		if c.List == nil {
+			def = o
+			continue
+		}
+		var keys []string
+		for _, e := range c.List {
+			tv, ok := p.info.Types[e]
+			if !ok || tv.Value == nil {
+				return nil, "", fmt.Errorf("switch on %s: non-constant case", selString(sw.Tag))
+			}
+			if strKeys {
+				if tv.Value.Kind() != constant.String {
+					return nil, "", fmt.Errorf("switch on %s: case is not a string constant", selString(sw.Tag))
+				}
+				keys = append(keys, leanBytes(constant.StringVal(tv.Value)))
+			} else {
+				t, _ := constVal(tv.Value)
+				keys = append(keys, t)
+			}
+		}
+		arms = append(arms, swArm{keys, o})
+	}
+	return
+}
+
+func emitArmTable(w *bytes.Buffer, doc, fn, argName, argTy string, arms []swArm, def string) {
+	fmt.Fprintf(w, "/-- %s -/\ndef %s (%s : %s) : Ctor :=\n", doc, fn, argName, argTy)
+	for _, a := range arms {
+		conds := make([]string, len(a.keys))
+		for i, k := range a.keys {
+			conds[i] = argName + " = " + k
+		}
+		fmt.Fprintf(w, "  if %s then .%s else\n", strings.Join(conds, " ∨ "), leanName(a.outcome))
+	}
+	fmt.Fprintf(w, "  .%s\n", leanName(def))
+}
+
+// switchesOn returns the switch statements of fd (outermost first, nested included) whose tag prints as tag.
+func switchesOn(fd *ast.FuncDecl, tag string) []*ast.SwitchStmt {
+	var out []*ast.SwitchStmt
+	ast.Inspect(fd.Body, func(n ast.Node) bool {
+		if s, ok := n.(*ast.SwitchStmt); ok && s.Tag != nil && selString(s.Tag) == tag {
+			out = append(out, s)
+		}
+		return true
+	})
+	return out
+}
+
+func rtmpPacketFacts(p *pkgInfo, w *bytes.Buffer) error {
+	// A. command names as byte strings (the model compares amf0 strings byte-wise)
+	var cmds []string
+	for _, f := range p.files {
+		for _, d := range f.Decls {
+			gd, ok := d.(*ast.GenDecl)
+			if !ok || gd.Tok != token.CONST {
+				continue
+			}
+			for _, sp := range gd.Specs {
+				for _, id := range sp.(*ast.ValueSpec).Names {
+					obj, ok := p.info.Defs[id].(*types.Const)
+					if !ok || !strings.HasPrefix(id.Name, "command") || obj.Val().Kind() != constant.String {
+						continue
+					}
+					cmds = append(cmds, fmt.Sprintf("/-- bytes of Go const `%s` = %s -/\ndef %sBytes : List UInt8 := %s\n",
+						id.Name, leanStr(constant.StringVal(obj.Val())), id.Name, leanBytes(constant.StringVal(obj.Val()))))
+				}
+			}
+		}
+	}
+	if len(cmds) == 0 {
+		return fmt.Errorf("command name constants")
+	}
+	sort.Strings(cmds)
+	for _, c := range cmds {
+		w.WriteString(c)
+	}
+
+	// B. BetterCid()/Type() of every struct type that has both (own or promoted from an embedded struct)
+	var tnames []string
+	scope := p.pkg.Scope()
+	for _, n := range scope.Names() {
+		tn, ok := scope.Lookup(n).(*types.TypeName)
+		if !ok {
+			continue
+		}
+		if _, ok := tn.Type().Underlying().(*types.Struct); !ok {
+			continue
+		}
+		tnames = append(tnames, n)
+	}
+	sort.Strings(tnames)
+	var packetTypes []string
+	for _, n := range tnames {
+		T := scope.Lookup(n).Type()
+		ms := types.NewMethodSet(types.NewPointer(T))
+		sc, st := ms.Lookup(p.pkg, "BetterCid"), ms.Lookup(p.pkg, "Type")
+		if sc == nil || st == nil {
+			continue
+		}
+		for _, m := range []struct {
+			sel  *types.Selection
+			name string
+		}{{sc, "BetterCid"}, {st, "Type"}} {
+			fd := p.declOfFunc(m.sel.Obj())
+			val, src, ok := p.constReturn(fd)
+			if !ok {
+				return fmt.Errorf("(*%s).%s is not `return <constant>`", n, m.name)
+			}
+			recv := "?"
+			if fd.Recv != nil && len(fd.Recv.List) == 1 {
+				recv = selString(fd.Recv.List[0].Type)
+			}
+			fmt.Fprintf(w, "/-- Go `(*%s).%s()` (declared on `%s`) returns `%s`. -/\ndef %s_%s : Nat := %s\n", n, m.name, recv, src, n, m.name, val)
+		}
+		packetTypes = append(packetTypes, n)
+	}
+	if len(packetTypes) == 0 {
+		return fmt.Errorf("no type with BetterCid() and Type()")
+	}
+	fmt.Fprintf(w, "/-- Struct types that have `BetterCid()` and `Type()`. -/\ndef packetTypes : List String := [%s]\n", quoteAll(packetTypes))
+
+	// C. DecodeMessage: the two switches on m.MessageType
+	dm := p.funcDecl("Protocol", "DecodeMessage")
+	if dm == nil {
+		return fmt.Errorf("func (*Protocol) DecodeMessage")
+	}
+	sws := switchesOn(dm, "m.MessageType")
+	var skip []string
+	var ctorArms []swArm
+	ctorDef := ""
+	nCtor := 0
+	for _, sw := range sws {
+		arms, def, err := p.switchArms(sw, false)
+		if err != nil {
+			return err
+		}
+		isSkip := len(arms) > 0
+		for _, a := range arms {
+			if a.outcome != "skipOneByte" {
+				isSkip = false
+			}
+		}
+		if isSkip && def == "" {
+			for _, a := range arms {
+				skip = append(skip, a.keys...)
+			}
+			continue
+		}
+		if def == "" {
+			return fmt.Errorf("DecodeMessage: dispatch switch without default")
+		}
+		ctorArms, ctorDef = arms, def
+		nCtor++
+	}
+	if nCtor != 1 {
+		return fmt.Errorf("DecodeMessage: expected one dispatch switch on m.MessageType, found %d", nCtor)
+	}
+	conds := make([]string, len(skip))
+	for i, k := range skip {
+		conds[i] = "t = " + k
+	}
+	if len(conds) == 0 {
+		conds = []string{"False"}
+	}
+	fmt.Fprintf(w, "/-- Go `DecodeMessage`: message types for which the payload is advanced by one byte (`p = p[1:]`) before decoding. -/\ndef decodeMessageSkipsOneByte (t : Nat) : Bool := decide (%s)\n", strings.Join(conds, " ∨ "))
+	// D. parseAMFObject: outer switch on the command name, inner switch on the request name
+	pa := p.funcDecl("Protocol", "parseAMFObject")
+	if pa == nil {
+		return fmt.Errorf("func (*Protocol) parseAMFObject")
+	}
+	outer, inner := switchesOn(pa, "commandName"), switchesOn(pa, "requestName")
+	if len(outer) != 1 || len(inner) != 1 {
+		return fmt.Errorf("parseAMFObject: switch on commandName / requestName")
+	}
+	oa, od, err := p.switchArms(outer[0], true)
+	if err != nil {
+		return err
+	}
+	if od == "" {
+		return fmt.Errorf("parseAMFObject: switch on commandName without default")
+	}
+	ia, id, err := p.switchArms(inner[0], true)
+	if err != nil {
+		return err
+	}
+	if id == "" {
+		return fmt.Errorf("parseAMFObject: switch on requestName without default")
+	}
+
+	// the outcomes of the switch arms: every packet constructor of the package (a function `New…` returning a pointer
+	// to a packet type), plus the three non-constructor outcomes, plus whatever else an arm does
+	ctorType := map[string]string{}
+	for _, f := range p.files {
+		for _, d := range f.Decls {
+			fd, ok := d.(*ast.FuncDecl)
+			if !ok || fd.Recv != nil || !strings.HasPrefix(fd.Name.Name, "New") || fd.Type.Results == nil || len(fd.Type.Results.List) != 1 {
+				continue
+			}
+			st, ok := fd.Type.Results.List[0].Type.(*ast.StarExpr)
+			if !ok {
+				continue
+			}
+			if id, ok := st.X.(*ast.Ident); ok {
+				for _, n := range packetTypes {
+					if n == id.Name {
+						ctorType[fd.Name.Name] = n
+					}
+				}
+			}
+		}
+	}
+	for _, o := range []string{"response", "parseAMFObject", "rejected"} {
+		ctorType[o] = ""
+	}
+	for _, arms := range [][]swArm{ctorArms, oa, ia} {
+		for _, a := range arms {
+			if _, ok := ctorType[a.outcome]; !ok {
+				ctorType[a.outcome] = ""
+			}
+		}
+	}
+	for _, d := range []string{ctorDef, od, id} {
+		if _, ok := ctorType[d]; !ok {
+			ctorType[d] = ""
+		}
+	}
+	var ctors []string
+	for n := range ctorType {
+		ctors = append(ctors, n)
+	}
+	sort.Strings(ctors)
+	fmt.Fprintf(w, "/-- What a switch arm of `DecodeMessage` / `parseAMFObject` does: call a packet constructor `NewT…`,\n`parseAMFObject` (choose by command name), `response` (look the transaction id up, then choose by the request's\nname) or `rejected` (`return nil, err`). All packet constructors of the package are listed. -/\ninductive Ctor where\n")
+	for _, n := range ctors {
+		fmt.Fprintf(w, "  | %s\n", leanName(n))
+	}
+	fmt.Fprintf(w, "  deriving DecidableEq, Repr\n")
+	fmt.Fprintf(w, "/-- The packet type a constructor returns (\"\" for the non-constructor outcomes). -/\ndef ctorGoType : Ctor → String\n")
+	for _, n := range ctors {
+		fmt.Fprintf(w, "  | .%s => %s\n", leanName(n), leanStr(ctorType[n]))
+	}
+	emitArmTable(w, "Go `DecodeMessage`: the switch on `m.MessageType` that creates the packet, arm by arm in source order (`NewT` = `pkt = NewT()`, `parseAMFObject` = by command name, `rejected` = `return nil, err`).",
+		"decodeMessageArm", "t", "Nat", ctorArms, ctorDef)
+
+	emitArmTable(w, "Go `parseAMFObject`: switch on the command name (`response` = the arm that looks the transaction id up and switches on the request name).",
+		"parseCommandArm", "name", "List UInt8", oa, od)
+	emitArmTable(w, "Go `parseAMFObject`: switch on the name of the request the transaction id belongs to.",
+		"parseResponseArm", "name", "List UInt8", ia, id)
+
+	// E. onPacketWriten: the packet types whose (tid, name) is registered, and the registering condition
+	opw := p.funcDecl("Protocol", "onPacketWriten")
+	if opw == nil {
+		return fmt.Errorf("func (*Protocol) onPacketWriten")
+	}
+	reg := map[string]bool{}
+	foundTS := false
+	ast.Inspect(opw.Body, func(n ast.Node) bool {
+		ts, ok := n.(*ast.TypeSwitchStmt)
+		if !ok {
+			return true
+		}
+		foundTS = true
+		for _, cc := range ts.Body.List {
+			c := cc.(*ast.CaseClause)
+			assigns := false
+			for _, st := range c.Body {
+				if as, ok := st.(*ast.AssignStmt); ok && len(as.Lhs) == 2 && selString(as.Lhs[0]) == "tid" && selString(as.Lhs[1]) == "name" &&
+					len(as.Rhs) == 2 && strings.HasSuffix(selString(as.Rhs[0]), ".TransactionID") && strings.HasSuffix(selString(as.Rhs[1]), ".CommandName") {
+					assigns = true
+				}
+			}
+			for _, e := range c.List {
+				if assigns {
+					reg[selString(e)] = true
+				}
+			}
+		}
+		return false
+	})
+	if !foundTS {
+		return fmt.Errorf("onPacketWriten: type switch")
+	}
+	for _, n := range packetTypes {
+		fmt.Fprintf(w, "/-- `onPacketWriten` takes `tid, name` from a `*%s`: %v. -/\ndef onPacketWritenRegisters_%s : Bool := %v\n", n, reg[n], n, reg[n])
+		delete(reg, n)
+	}
+	if len(reg) != 0 {
+		return fmt.Errorf("onPacketWriten: type switch case on a type without BetterCid/Type")
+	}
+	cond := ""
+	ast.Inspect(opw.Body, func(n ast.Node) bool {
+		if is, ok := n.(*ast.IfStmt); ok && cond == "" {
+			var b bytes.Buffer
+			printer.Fprint(&b, p.fset, is.Cond)
+			if strings.Contains(b.String(), "tid") {
+				cond = b.String()
+			}
+		}
+		return true
+	})
+	fmt.Fprintf(w, "/-- The condition under which `onPacketWriten` stores `transactions[tid] = name`. -/\ndef onPacketWritenCondition : String := %s\n", leanStr(cond))
 	return nil
 }
